@@ -29,7 +29,7 @@ import common as C
 import progs
 import ir2print as P
 
-EXTRA_MODELS = [("scala", "printcorr_scala"), ("java", "printcorr_java")]
+EXTRA_MODELS = [("scala", "printcorr_scala"), ("java", "printcorr_java"), ("groovy", "printcorr_groovy")]
 OPTS = {"cast_numbers": False}
 
 
